@@ -136,7 +136,7 @@ class bitarray:
     def __getitem__(self, k):
         n = self._b.n
         if isinstance(k, slice):
-            k = C._cslice(k)
+            k = C._cslice(k, n)
             if k.step in (None, 1):
                 a, b, _ = k.indices(n)
                 return self._mk(self._b.slice(a, max(a, b)))
@@ -163,7 +163,7 @@ class bitarray:
     def __delitem__(self, k):
         n = self._b.n
         if isinstance(k, slice):
-            k = C._cslice(k)
+            k = C._cslice(k, n)
             if k.step not in (None, 1):
                 raise C.Unmodelled('extended slice deletion')
             a, b, _ = k.indices(n)
